@@ -2896,13 +2896,19 @@ Lemma BInv_TInv s : BInv [] s -> TInv [] noE s.
 Proof.
   intros [b_edges0 b_zero10 b_zero20 b_nec0 b_par0 b_height0 b_heap0 b_count0 b_obs0 b_valid0 b_sreg0 b_log0 b_life0].
   assert (Hnil : forall m : nid, m ∉ []) by (intros m Hm; inversion Hm).
-  constructor; try assumption.
+  constructor.
+  - exact b_edges0.
   - intros m Hm. destruct (b_zero10 m Hm), (b_zero20 m (Hnil m) Hm). auto.
   - intros m _ _. apply b_nec0, Hnil.
   - intros m [].
   - intros w Hw. inversion Hw.
   - intros m _. apply b_par0, Hnil.
   - intros m Hm. apply (b_height0 m (Hnil m) Hm).
+  - exact b_heap0.
+  - exact b_count0.
+  - exact b_obs0.
+  - exact b_valid0.
+  - exact b_log0.
   - intros m _. apply b_life0.
   - intros w Hw. inversion Hw.
   - constructor.
@@ -2914,12 +2920,19 @@ Lemma TInv_BInv s : TInv [] noE s ->
 Proof.
   intros [t_edges0 t_zero0 t_nec0 t_necE0 t_W0 t_par0 t_height0 t_heap0 t_count0 t_obs0 t_valid0 t_log0 t_life0 t_lifeW0 t_nodup0] Hsreg.
   assert (Hnil : forall m : nid, m ∉ []) by (intros m Hm; inversion Hm).
-  constructor; try assumption.
+  constructor.
+  - exact t_edges0.
   - intros m Hm. destruct (t_zero0 m Hm) as (? & ? & ? & ?). auto.
   - intros m _ Hm. destruct (t_zero0 m Hm) as (? & ? & ? & ?). auto.
   - intros m _. apply t_nec0; [apply Hnil|intros []].
   - intros m _. apply t_par0, Hnil.
   - intros m _ Hm. apply (t_height0 m Hm).
+  - exact t_heap0.
+  - exact t_count0.
+  - exact t_obs0.
+  - exact t_valid0.
+  - exact Hsreg.
+  - exact t_log0.
   - intros m. apply t_life0, Hnil.
 Qed.
 
